@@ -172,6 +172,40 @@ def cfg_with(specwork, cfgname, consts=None, outname=None, drop=None, add=None):
     return outname
 
 
+def mc_module(specwork, base, consts, cfg_body, tag=None):
+    """Generate <base>_<tag>.tla (EXTENDS base, one definition per constant) and a
+    cfg that substitutes every constant (`K <- c_K`), for constants that a cfg
+    cannot express (sequences, records). `consts` maps name -> TLA+ expression.
+    Returns (module name, cfg name)."""
+    tag = tag or hashlib.md5((repr(sorted(consts.items())) + cfg_body).encode()).hexdigest()[:8]
+    mod = "%s_%s" % (base, tag)
+    lines = ["---- MODULE %s ----" % mod, "EXTENDS %s" % base]
+    for k, v in consts.items():
+        lines.append("c_%s == %s" % (k, v))
+    lines.append("====")
+    with open(os.path.join(specwork, mod + ".tla"), "w") as f:
+        f.write("\n".join(lines) + "\n")
+    cfg = "CONSTANTS\n" + "".join("  %s <- c_%s\n" % (k, k) for k in consts) + cfg_body + "\n"
+    with open(os.path.join(specwork, mod + ".cfg"), "w") as f:
+        f.write(cfg)
+    return mod, mod + ".cfg"
+
+
+def tla(v):
+    """Python value -> TLA+ expression (bool, int, str, list -> sequence, set/frozenset -> set)."""
+    if isinstance(v, bool):
+        return "TRUE" if v else "FALSE"
+    if isinstance(v, int):
+        return str(v)
+    if isinstance(v, str):
+        return '"%s"' % v
+    if isinstance(v, (list, tuple)):
+        return "<<" + ", ".join(tla(x) for x in v) + ">>"
+    if isinstance(v, (set, frozenset)):
+        return "{" + ", ".join(tla(x) for x in sorted(v)) + "}"
+    raise TypeError(v)
+
+
 _tlc_seq = [0]
 _tlc_lock = __import__("threading").Lock()
 
